@@ -9,7 +9,7 @@ PROP = {
     "rule": "streams: corpus of histories; exhaustive (every start URL of a 43-URL pool x every operation kind x every argument of an 85-string delimiter-rich pool, one step each); random histories of 1-8 mutating calls (Url::set_*, set_ip_host, path_segments_mut sessions, quirks setters) from pool or randomly generated parsed URLs. After steps the model and the implementation are compared on: the whole record (serialization, 7 offsets, host kind, port) and status, all 16 read accessors, the 10 quirks getters, and (sampled) all 16 x 18 Position range forms incl. panics. wf_b is evaluated by the model on every observed record (histogram key wf_b:*). Non-trivial = every step/observation (each has a non-empty URL); distinct = distinct request lines.",
     "trusted_base": [
         "Model/Parser.v, Model/Setters.v, Model/UrlRecord.v are hand-written models of url/src/{parser,lib,slicing,quirks,path_segments}.rs tied to the code only by the correspondence",
-        "host parsing/serialisation inside the URL model is answered by the real crate (oracle queries hp/ho/hd) in this check; the host model itself is C09's",
+        "host parsing/serialisation inside the URL model is Model/Host.v (property C09); only IDNA ToASCII (idna::domain_to_ascii_cow with AsciiDenyList::URL, as host.rs calls it) is answered by the real idna crate through an oracle query",
         "Eq/Ord/Hash/Display/FromStr/serde are functions of the serialization in the model; their tie to std/serde is exercised only in the search phase (harness/src/urlprops.rs)",
     ],
     "assumptions": [
@@ -28,6 +28,6 @@ PROP = {
 TEXT = {
     "level": "Machine-checked Coq theorems (5, closed under the global context) for EVERY Url record satisfying the executable structural invariant wf_b and for both build configurations: each of the 16 Positions maps to an in-bounds index (no Index impl can panic), indices are monotone in Position order, all range forms succeed and consecutive ranges re-concatenate to the serialization, and scheme ':' ['//' [username [':' password] '@'] host [':' port]] ['/.'] path ['?' query] ['#' fragment] assembled from the accessors equals the serialization byte for byte; overlapping views (has_authority/has_host/host/host_str/domain/port_or_known_default) agree. The models of the accessors, Position mapping and all mutators are tied to the code by a correspondence run over single steps and histories (record, status, 16 accessors, 10 quirks getters, all Position ranges).",
     "design_ref": "DESIGN.md section 8 C03, section 13",
-    "note": "Partial: that every reachable Url satisfies wf_b (parser and setter preservation) is stated (C03_reachability_statement) but not proved; the run measures it on every observed record and lists the (pre-existing, known) classes that leave wf_b. Eq/Ord/Hash/Display/serde agreement is definitional in the model (functions of the serialization) and exercised against std/serde only by the search phase. Trusted: Coq kernel + vm_compute, extraction + OCaml driver, the correspondence generators, host functions answered by the real crate.",
+    "note": "Partial: that every reachable Url satisfies wf_b (parser and setter preservation) is stated (C03_reachability_statement) but not proved; the run measures it on every observed record and lists the (pre-existing, known) classes that leave wf_b. Eq/Ord/Hash/Display/serde agreement is definitional in the model (functions of the serialization) and exercised against std/serde only by the search phase. Trusted: Coq kernel + vm_compute, extraction + OCaml driver, the correspondence generators, IDNA ToASCII answered by the real idna crate (the host model is Model/Host.v).",
     "technique": "Coq proof over Gallina model of the Url record/accessors + extracted-model/implementation correspondence on histories",
 }
